@@ -535,7 +535,12 @@ def gen_config(rng, ctype):
              "outputAppliedForce on"]
     if rng.random() < 0.3:
         extra.append("outputValue off")
-    cv = corpus.make_colvar(rng, sysm, pool, "cv1", ctype, opts, extra)
+    state = rng.getstate()
+    cv = corpus.make_colvar(rng, sysm, list(pool), "cv1", ctype, opts, extra)
+    if cv["vtype"] != "scalar":
+        # boundaries and widths only exist for scalar variables
+        rng.setstate(state)
+        cv = corpus.make_colvar(rng, sysm, list(pool), "cv1", ctype, opts, ["outputAppliedForce on"])
     kinds = SCALAR_BIASES if cv["vtype"] == "scalar" else ["harmonic", "linear"] if cv["vtype"] in ("vec3", "vector") \
         else ["harmonic"]
     kind = rng.choice(kinds)
@@ -696,7 +701,10 @@ def make_mutations(rng, cfg, H, per_class):
         if e and e["bool"]:
             return False
         if n.kind == "block":
-            return True
+            # a block is a required value where the code or the manual says what it must hold: variables, biases,
+            # components, documented sub-blocks (atom groups); an undocumented optional block (e.g. `grid`) is not judged
+            k = n.key.lower()
+            return k == "colvar" or k in COMPS or k in BIASES or bool(e and e["types"])
         v = value_text(n)
         if v in TRUE_WORDS or v in FALSE_WORDS:
             return False
@@ -782,7 +790,8 @@ def crash_kind(err, timed_out=False):
         for pat, name in [(r"null pointer", "null-pointer-use"), (r"signed integer overflow", "signed-integer-overflow"),
                           (r"division by zero", "division-by-zero"),
                           (r"outside the range of representable values", "float-cast-overflow"),
-                          (r"out of bounds", "index-out-of-bounds"), (r"not a valid value for type 'bool'", "invalid-bool"),
+                          (r"out of bounds", "index-out-of-bounds"),
+                          (r"not a valid value for type '(const )?bool'", "invalid-bool-load"),
                           (r"misaligned", "misaligned"), (r"shift", "invalid-shift"),
                           (r"not a valid value for type", "invalid-enum")]:
             if re.search(pat, t):
@@ -1058,8 +1067,55 @@ def dedupe_violations(c):
     c.violation = violation
 
 
+def do_replay(path):
+    """re-run the witness stored in a replay directory; 1 if the violation reproduces, 0 if not, 2 if unusable"""
+    try:
+        meta = json.load(open(os.path.join(path, "violation.json")))
+    except (OSError, ValueError):
+        print("C09 replay: no violation.json in %s" % path)
+        return 2
+    key = meta["key"].split(":", 1)[1]
+    wd = os.path.join(common.VERIF, "work", "C09_replay")
+    shutil.rmtree(wd, ignore_errors=True)
+    os.makedirs(wd)
+    for f in AUX_FILES:
+        if os.path.exists(os.path.join(TESTS, f)):
+            shutil.copy(os.path.join(TESTS, f), wd)
+    scns = sorted(f for f in os.listdir(path) if f.endswith(".scn"))
+    rc = 2
+    if key.startswith("fuzz:") and not scns:
+        exe = common.vbuild.tool("fuzz", "fz_config")
+        arts = [f for f in os.listdir(path) if not f.endswith((".json", ".txt")) and not f.startswith("minimised_")]
+        cwd = os.path.join(wd, "cwd")
+        os.makedirs(cwd)
+        t = triage(exe, os.path.join(path, arts[0]), cwd)
+        got = "fuzz:%s:%s" % (t["kind"], t["frame"])
+        print("C09 replay: %s -> %s" % (arts[0], got))
+        rc = 1 if got == key else 0
+    elif key.startswith("layout:") and len(scns) == 2:
+        outs = []
+        for f in scns:
+            r, ev, _ = common.run_esim("plain", open(os.path.join(path, f)).read(), wd, f[:-4])
+            outs.append((accepted(ev), step_lines(r["out"])))
+        print("C09 replay: accepted %s / %s, step events equal: %s" % (outs[0][0], outs[1][0], outs[0][1] == outs[1][1]))
+        rc = 0 if (outs[0][0] and outs[1][0] and outs[0][1] == outs[1][1]) else 1
+    elif scns:
+        r, ev, _ = common.run_esim("asan", open(os.path.join(path, scns[0])).read(), wd, "replay")
+        cfg = [e for e in ev if e.get("ev") == "config"]
+        print("C09 replay: signal=%s config event=%s %s" % (r["sig"], json.dumps(cfg[0])[:300] if cfg else None,
+                                                           common.sanitizer_report(r["err"]) or ""))
+        rc = 1 if (r["sig"] or not cfg or accepted(ev)) else 0
+    shutil.rmtree(wd, ignore_errors=True)
+    return rc
+
+
 def run(tier, replay):
+    if replay:
+        return do_replay(replay)
     c = common.Check("C09", tier)
+    for e in os.listdir(c.replays):           # stale witnesses of an earlier run with the same seed and tier
+        if e.startswith("s%d_%s_" % (c.seed, tier)):
+            shutil.rmtree(os.path.join(c.replays, e), ignore_errors=True)
     dedupe_violations(c)
     c.rule = ("distinct = distinct (configuration, mutation class, site) of the strictness part + distinct rewrite kinds "
               "exercised by the layout part; evaluations = fuzz executions + mutation runs + rewrite pairs")
